@@ -107,3 +107,36 @@ def build_rustsim() -> None:
     env["VERIF_REPO"] = REPO
     subprocess.run([os.path.join(VERIF, "tools", "build_rustsim.sh")], env=env,
                    check=True, timeout=1200, capture_output=True)
+
+
+_SIM_DS = None
+
+
+def sim_dataset_cls():
+    """`sedpack.io.Dataset` whose iteration mixin is dataset_iteration.py
+    re-executed with queue / threading / time / concurrent.futures simulated
+    and LazyPool taken from the simulated lazy_pool module: whatever that
+    file does with threads - in the pinned form or after a change - runs
+    under the scheduler."""
+    global _SIM_DS
+    if _SIM_DS is None:
+        sedpack_io()
+        from simlib import sched, simexec
+        di_path = os.path.join(SRC, "sedpack", "io", "dataset_iteration.py")
+        ds_path = os.path.join(SRC, "sedpack", "io", "dataset.py")
+        di = sched.load_module_under_shims(
+            di_path, "verif_sim_dataset_iteration",
+            {"concurrent.futures": simexec.make_futures_module()})
+        di.LazyPool = sim_lazy_pool().LazyPool
+        real = sys.modules["sedpack.io.dataset_iteration"]
+        sys.modules["sedpack.io.dataset_iteration"] = di
+        try:
+            import importlib.util
+            spec = importlib.util.spec_from_file_location("verif_sim_dataset",
+                                                          ds_path)
+            mod = importlib.util.module_from_spec(spec)
+            spec.loader.exec_module(mod)
+        finally:
+            sys.modules["sedpack.io.dataset_iteration"] = real
+        _SIM_DS = mod.Dataset
+    return _SIM_DS
